@@ -583,7 +583,7 @@ def filter_outputs(
         return _collect_all_outputs(state, graph, _EMIT_SENTINEL)
 
     names = [effective] if isinstance(effective, str) else effective
-    return _collect_selected_outputs(state, names, _EMIT_SENTINEL, on_missing)
+    return _collect_selected_outputs(state, names, _EMIT_SENTINEL, on_missing, graph._get_emit_only_outputs())
 
 
 def _resolve_select(select: Any, graph: Graph) -> str | list[str]:
@@ -613,14 +613,23 @@ def _collect_selected_outputs(
     names: list[str],
     sentinel: Any,
     on_missing: str,
+    emit_only: frozenset[str] | set[str] = frozenset(),
 ) -> dict[str, Any]:
-    """Return selected outputs, handling missing per on_missing policy."""
+    """Return selected outputs, handling missing per on_missing policy.
+
+    Emit-only names are ordering signals, never values: they are left out by name,
+    like in ``_collect_all_outputs`` (with an entry point downstream of their producer
+    the caller supplies them). A data output that only exists as a signal in this run
+    (the same name emitted by another exclusive branch) was not produced.
+    """
     result = {}
     missing = []
     for k in names:
+        if k in emit_only:
+            continue
         if k in state.values and state.values[k] is not sentinel:
             result[k] = state.values[k]
-        elif k not in state.values:
+        else:
             missing.append(k)
 
     if missing:
